@@ -24,7 +24,7 @@ RULE = ("hostile connections: one hostile item (a mutated message or garbage) se
 ASSUMPTIONS = ["a peer that stalls forever mid-message on the single-threaded multiplex server without a timeout is documented behaviour; hostile clients always close (after <=50 ms)",
                "'still accepts / keeps receiving' = within a 10 s watchdog after the last hostile socket is closed",
                "BaseException-only exceptions (SystemExit ...) raised by methods are outside the statement ('Exception subclasses')"]
-REQUIRED_REACH = ["abandoned_streams_swept", "injected_yields", "hostile_connections", "witness_calls_ok", "post_attack_handshake_ok", "accounting_restored", "refused_by_full_pool", "error_replies_seen", "stream_guess_phases_ok"]
+REQUIRED_REACH = ["served_while_handshakes_stalled", "abandoned_streams_swept", "injected_yields", "hostile_connections", "witness_calls_ok", "post_attack_handshake_ok", "accounting_restored", "refused_by_full_pool", "error_replies_seen", "stream_guess_phases_ok"]
 SHARD_TIMEOUT = {"quick": 240, "thorough": 3000}
 
 
@@ -439,6 +439,52 @@ def stream_guess_phase(fx, P, rec, cfgkey, pay):
         P.config.ITER_STREAM_LIFETIME = saved_lifetime
 
 
+def stalled_phase(fx, P, rec, cfgkey, pay):
+    """thread-pool server: clients that stall in the middle of their handshake and do NOT go away (nothing sent / a prefix of the header / the
+    header and half of the body) each occupy a worker of their own - and nothing else: new well-behaved clients arriving meanwhile complete
+    their handshake and are served. (Not asked of the single-threaded multiplex server, where a peer stalling mid-message without a timeout
+    is the documented design.)"""
+    import socket as _s
+    ser = P.serializers.serializers["marshal"]
+    full = valid_connect(P, ser)
+    stalled = []
+    try:
+        for prefix in (b"", full[:10], full[:40 + (len(full) - 40) // 2]):
+            c = _s.socket(_s.AF_UNIX if isinstance(fx.location, str) else _s.AF_INET, _s.SOCK_STREAM)
+            c.settimeout(5.0)
+            c.connect(fx.location)
+            if prefix:
+                c.sendall(prefix)
+            stalled.append(c)
+        time.sleep(0.05)
+        ok, err = 0, None
+        t0 = time.time()
+        while ok < 3 and time.time() - t0 < 12:
+            try:
+                with fx.proxy("svc", timeout=4.0) as p:
+                    tok = "while-stalled-%d" % ok
+                    if p.echo(tok) == tok:
+                        ok += 1
+            except Exception as x:
+                err = x
+        rec.case(("stalled-handshakes", cfgkey), nontrivial=True)
+        if ok < 3:
+            if not fx.loop_alive():
+                rec.violation("request-loop-died", "request loop dead while clients stalled in their handshake: %r" % (fx.loop_exc,), pay)
+            else:
+                rec.violation("new-clients-blocked-by-stalled-handshake", "with 3 clients stalled in the middle of their handshake (nothing sent / 10 header bytes / half a body) and still connected, only %d of 3 "
+                              "new clients were served within 12 s (last error %r); busy workers %r of %r (cfg %s)" % (ok, err, fx.busy_count(), P.config.THREADPOOL_SIZE, cfgkey), pay)
+            return False
+        rec.count("served_while_handshakes_stalled", ok)
+        return True
+    finally:
+        for c in stalled:
+            try:
+                c.close()
+            except Exception:
+                pass
+
+
 def run_config(P, cfg, rec, r, n_items):
     fx = fixture.Fixture(servertype=cfg["servertype"], unix=cfg.get("unix", False), COMMTIMEOUT=cfg["commtimeout"], THREADPOOL_SIZE=cfg["pool"], THREADPOOL_SIZE_MIN=2, ITER_STREAMING=True,
                          ITER_STREAM_LINGER=0.2, ITER_STREAM_LIFETIME=1.0)      # abandoned streams expire (housekeeping) while the attack is still going on
@@ -534,6 +580,9 @@ def run_config(P, cfg, rec, r, n_items):
                 rec.violation("request-loop-died", "request loop dead after the attack: %r" % (fx.loop_exc,), dict(pay, last=last))
             return
         rec.count("post_attack_handshake_ok")
+        if cfg["servertype"] == "thread" and cfg["pool"] > 5:
+            if not stalled_phase(fx, P, rec, cfgkey, dict(pay, last=last)):
+                return
         stream_guess_phase(fx, P, rec, cfgkey, dict(pay, last=last))
         # streams that hostile clients opened and abandoned: the housekeeping pass that drops them has run before the verdict is taken
         opened = sum(1 for ph, lb in sent_log if "stream_" in lb)
